@@ -29,9 +29,13 @@ package dochandler
 //@   results rm, err
 //@   modifies lastResolved
 //@   ensures lastResolved == rm && (err == nil ==> rm != nil)
+// ghost: did the last decoration fail?
+//@ ghost lastDecorateFailed bool
 //@ iface operationDecorator.Decorate
 //@   results out, err
+//@   modifies lastDecorateFailed
 //@   ensures err == nil ==> out != nil
+//@   ensures lastDecorateFailed == (err != nil)
 //@ iface metricsProvider.*
 //
 // the default decorator refuses every non-create operation on a deactivated DID
@@ -64,9 +68,15 @@ package dochandler
 //@   modifies added, lastAddedSuffix, lastAddedVersion
 // ghost: number of operations that went through validateOperation
 //@ ghost validations int
+// ghost: the operation that was validated last; its verdict as a predicate (assumed to be a function of handler,
+// operation and version: the validators are the embedding application's)
+//@ ghost lastValidated *operation.Operation
+//@ spec opValid(h *DocumentHandler, op *operation.Operation, pv protocol.Version) bool
 //@ func (*DocumentHandler).validateOperation
 //@   requires dhOK(r) && op != nil && pv != nil
 //@   sets validations = validations + 1
+//@   sets lastValidated = op
+//@   assumes (result == nil) == opValid(r, op, pv)
 //@ func (*DocumentHandler).getCreateResponse
 //@   requires dhOK(r) && op != nil && pv != nil
 //   a create response is always presented as unpublished
@@ -92,9 +102,13 @@ package dochandler
 //@   ensures added == old(added) ==> err != nil
 //@   ensures added == old(added) ==> uStored == old(uStored) || (uStored == old(uStored) + 1 && uDeleted == old(uDeleted) + 1 && lastDelOp == lastPutOp)
 //@   ensures added == old(added) + 1 ==> uStored <= old(uStored) + 1 && uDeleted == old(uDeleted)
+//   nothing is queued (or stored) for an operation that validation or decoration refused - the verdicts count, not only
+//   the fact that validation ran
+//@   ensures added == old(added) + 1 ==> opValid(r, lastValidated, verOf(r.protocol, protocolVersion)) && !lastDecorateFailed
+//@   ensures uStored == old(uStored) + 1 ==> opValid(r, lastValidated, verOf(r.protocol, protocolVersion)) && !lastDecorateFailed
 //   C20 glue: the operation is parsed by the parser of the requested version and queued under that version's genesis time
 //@   ensures added == old(added) + 1 ==> verOK(r.protocol, protocolVersion) && parseOK2(parserOf(verOf(r.protocol, protocolVersion)), r.namespace, operationBuffer) && lastAddedVersion == genesisOf(verOf(r.protocol, protocolVersion))
-//@   modifies uStored, uDeleted, lastPutOp, lastDelOp, added, lastAddedSuffix, lastAddedVersion, lastResolved, validations
+//@   modifies uStored, uDeleted, lastPutOp, lastDelOp, added, lastAddedSuffix, lastAddedVersion, lastResolved, validations, lastValidated, lastDecorateFailed
 
 // ---- C19 / C20: the transformation info handed to the document transformer ----
 // published documents: id as requested, published = true, canonical id <namespace>[:<canonical ref>]:<suffix>, and the
